@@ -116,10 +116,13 @@ def endResize (s : ISet) : Except Err ISet :=
     let s1 := merge { s with fresh := sortFresh s.fresh }
     .ok { s1 with seq := s1.seq + 1, st := .ground }
 
+/-- `pair.local() = k` (`ParallelLocalIndex::operator=(size_t)` only overwrites the local number) -/
+def setLoc (p : Pair) (k : Nat) : Pair := { p with l := { p.l with loc := k } }
+
 /-- `for(pair=begin(); pair!=end; index++, ++pair) pair->local()=index;` -/
 def renumFrom : Nat → List Pair → List Pair
   | _, [] => []
-  | i, p :: ps => { p with l := { p.l with loc := i } } :: renumFrom (i + 1) ps
+  | i, p :: ps => setLoc p i :: renumFrom (i + 1) ps
 
 def renumberLocal (s : ISet) : Except Err ISet :=
   if s.st = .resize then .error .invalidState
@@ -178,7 +181,7 @@ def getL (xs : List Pair) (g : Int) : Option (Nat × Pair) :=
 
 /-- `set[global].local() = l` through the reference returned by the non-const `operator[]` -/
 def setLocalVia (s : ISet) (g : Int) (l : Nat) : Option ISet :=
-  (getL s.loc g).map fun (i, _) => { s with loc := modifyAt (fun p => { p with l := { p.l with loc := l } }) i s.loc }
+  (getL s.loc g).map fun (i, _) => { s with loc := modifyAt (fun p => setLoc p l) i s.loc }
 
 /-! ### GlobalLookupIndexSet -/
 
